@@ -481,6 +481,13 @@ def classify(rec, it, m):
     base = dict(cipher=it["cipher"], hash=it["hash"], dir=it["dir"], order=it["order"], tag=it["tag"], klen=len(it["key"]),
                 ivlen=len(it["iv"]), aadlen=len(it["aad"]), clen=it["clen"], hlen=it["hlen"], coff=it["coff"],
                 hoff=it["hoff"], inplace=it["inplace"])
+    if it["hash"] == 21:
+        # DOCSIS frame geometry: standard = a CRC is defined (>= 14 hashed bytes), the ciphered range starts inside the
+        # frame and ends exactly behind the 4 CRC bytes that follow the hashed range, and holds more than the CRC
+        std = (it["hlen"] >= 14 and it["coff"] >= it["hoff"] and it["coff"] + it["clen"] == it["hoff"] + it["hlen"] + 4
+               and it["clen"] > 4)
+        # fewer than 14 hashed bytes: no CRC is defined, the job is the cipher alone (only the tag bytes are unspecified)
+        base["geom"] = "std" if (std or it["cipher"] != 4) else ("nocrc" if it["hlen"] < 14 else "nonstd")
     if badg:
         if len(groups) == 1:
             cls = "a"
